@@ -8,7 +8,7 @@ TERM_POOL = [('"a"', 'a'), ('"b"', 'b'), ('"c"', 'c'), ('"ab"', 'ab'), ('/a+/', 
 IGNORE_POOL = [('" "', ' ', [' ']), ('/ +/', ' +', [' ', '  ']), ('"-"', '-', ['-']), ('/-=+/', '-=+', ['-=', '-==']), ('/ ?=/', ' ?=', ['=', ' ='])]
 
 
-def gen_cfg(rng, regex_terms=True, max_nts=4, ignore_p=0.45, shapes=True):
+def gen_cfg(rng, regex_terms=True, max_nts=4, ignore_p=0.45, shapes=True, aliases=True):
     """returns grammar text.  Biased towards left/right/middle recursion, nullable chains, unit cycles, hidden left recursion."""
     nts = ['start'] + ['n%d' % i for i in range(rng.randint(0, max_nts - 1))]
     pool = TERM_POOL if regex_terms else TERM_POOL[:4]
@@ -34,6 +34,8 @@ def gen_cfg(rng, regex_terms=True, max_nts=4, ignore_p=0.45, shapes=True):
                 syms = [rng.choice(nts + tnames + tnames) for _ in range(rng.choice([0, 1, 1, 2, 2, 3]))]
             alts.append(' '.join(syms))
         alts = list(dict.fromkeys(alts))
+        if aliases and nt != 'start':
+            alts = [a + (' -> al%d' % rng.randint(0, 1) if rng.random() < 0.3 else '') for a in alts]
         lines.append('%s: %s' % (nt, ' | '.join(alts)))
     for n, (sp, _rx) in zip(tnames, chosen):
         lines.append('%s: %s' % (n, sp))
